@@ -79,6 +79,10 @@ func c17Special(rng *Rng, n int) []string {
 		"ab-.cde", "abc.d-e", "a-b.c-d", "xn--abc.def", "abc.def.ghi.jkl.mno", "100.200.100.abc", "0x1.0x2.0x3.0x4",
 		"1e1.100.100.100", "abc\x00def", "abc def", "abc%2e", "ABC", "abC", "a_b", "ab", "a", "abc", "a-c", "-ab", "ab-", "a.b",
 		"aaa.bbb", "aaa..bbb", "aaa.bb", "aaa.-bb", "aaa.b-b", "9aa.9bb", "a--", "a--b", "0.0.0.0", "100.100.100.100")
+	// names that are several lines, some or all of them valid names on their own; other white space
+	// and control characters around and inside valid names
+	out = append(out, "aaa\n", "\naaa", "aaa\nA_", "A_\naaa", "aaa.\nbbb", "100.100.100\n1", "aaa\nbbb", "aaa\r\nbbb", "aaa\r", "\raaa", "aaa\tbbb", "\taaa", "aaa\x0b", "aaa\x0cbbb",
+		"aaa\n.bbb", "aaa.bbb\n", "aaa\n\nbbb", "a\nb", "\n\n\n", "aaa\x85bbb", "aaa\u2028bbb", " aaa", "aaa ")
 	for i := 0; i < n; i++ {
 		l := 1 + rng.Intn(12)
 		s := make([]byte, l)
